@@ -14,7 +14,7 @@
 //   intpos <d> <dof> <delta>    mj_integratePos(qpos, e_dof, delta) in place  -> "ok"
 //   diffpos <d> dt q1,.. q2,..  mj_differentiatePos
 //   stepacc <d>                 copy of d is stepped once; prints (qvel' - qvel) / timestep  (d itself is untouched)
-//   efc <d>                     "nefc type:force ..." constraint rows
+//   efc <d>                     efc_force of all constraint rows
 //   fwdinv <d>                  mj_compareFwdInv -> "2 fwdinv0 fwdinv1"
 #include "mjdrv_common.h"
 extern "C" {
@@ -140,9 +140,8 @@ static bool extra(const std::vector<std::string>& t, const std::vector<std::stri
     HX_END; pv(r); return true;
   }
   if (op == "efc") {
-    printf("%d", d->nefc);
-    for (int k = 0; k < d->nefc; k++) { printf(" %d:", d->efc_type[k]); drv_print_num(d->efc_force[k]); }
-    HX_END; printf("\n"); return true;
+    std::vector<mjtNum> f(d->efc_force, d->efc_force + d->nefc);
+    HX_END; pv(f); return true;
   }
   if (op == "fwdinv") {
     mj_compareFwdInv(m, d);
